@@ -116,6 +116,7 @@ Proof.
     + eapply IH; eassumption.
     + eapply IH; [apply Hc|exact Hwf].
     + eapply bs_inv_final; apply Hc.
+    + eapply IH; eassumption.
 Qed.
 
 Lemma bs_final_loop id key live0 evs :
@@ -310,3 +311,52 @@ Lemma every_exit_cleans_up :
     bs_out (bs_process 7 5 {[6]} evs).1 =
       [UBulk [MkPay (0, 1, 7) true 3; MkPay (0, 2, 7) true 3]; UWithdraw 7 None]) bs_exits.
 Proof. repeat constructor. Qed.
+
+(* ================================================================== *)
+(* C13-style: a reconfiguration of the unit that concerns neither its main settings
+   nor this peer is no event for the session                                        *)
+
+(* one such reconfiguration: no command to the session, nothing sent, live_sessions
+   untouched, the loop goes on - the state is what it was *)
+Theorem reconf_spares_session id key s e : bs_spared e = true -> bs_step id key s e = (s, true).
+Proof. destruct e as [| | | | | | | | |r]; try discriminate. destruct r; try discriminate; reflexivity. Qed.
+
+(* ... and exactly those: every other reconfiguration tells the session to disconnect *)
+Theorem reconf_not_spared_disconnects id key s r :
+  bs_spared (BReconf r) = false ->
+  exists c go, bs_step id key s (BReconf r) = (bs_command s c, go) /\ (c = BCReconfiguration \/ c = BCDeconfigured).
+Proof.
+  destruct r; try discriminate; intros _; cbn [bs_step]; do 2 eexists; (split; [reflexivity|]); auto.
+Qed.
+
+Lemma bs_loop_drop_spared id key evs : forall s,
+  (bs_loop id key s evs).1 = (bs_loop id key s (List.filter (fun e => negb (bs_spared e)) evs)).1.
+Proof.
+  induction evs as [|e evs IH]; intros s; [reflexivity|].
+  destruct (bs_spared e) eqn:He.
+  - cbn [List.filter]. rewrite He. cbn [negb]. cbn [bs_loop].
+    rewrite (reconf_spares_session id key s e He). apply IH.
+  - cbn [List.filter]. rewrite He. cbn [negb bs_loop].
+    destruct (bs_step id key s e) as [s' go]. destruct go; [apply IH|reflexivity].
+Qed.
+
+Lemma bs_process_fst id key live0 evs :
+  (bs_process id key live0 evs).1 = bs_cleanup id key (bs_loop id key (bs_init live0) evs).1.
+Proof. unfold bs_process. destruct (bs_loop id key (bs_init live0) evs) as [s rest]. reflexivity. Qed.
+
+(* whatever the script: taking the spared reconfigurations out of it changes nothing of what
+   the session does - the updates it sends, live_sessions, the commands, the final withdrawal *)
+Theorem spared_reconfs_invisible id key live0 evs :
+  (bs_process id key live0 evs).1 =
+  (bs_process id key live0 (List.filter (fun e => negb (bs_spared e)) evs)).1.
+Proof. rewrite !bs_process_fst. f_equal. apply bs_loop_drop_spared. Qed.
+
+(* non-vacuity: an established session that announced a route sees another peer's entry change, twice, and an
+   unchanged reload; it goes on taking routes and ends with the connection, having been told nothing *)
+Lemma spared_example :
+  let evs := [BNegotiate; BMsgNegotiated; BMsgUpdate (Some (URoutes 0 [1] 3 0 [])); BReconf BROthers; BReconf BRSame;
+              BMsgUpdate (Some (URoutes 0 [2] 4 0 [])); BReconf BROthers; BMsgLost false] in
+  bs_out (bs_process 7 5 {[6]} evs).1 =
+    [UBulk [MkPay (0, 1, 7) true 3]; UBulk [MkPay (0, 2, 7) true 4]; UWithdraw 7 None] /\
+  bs_cmds (bs_process 7 5 {[6]} evs).1 = [] /\ (bs_process 7 5 {[6]} evs).2 = [].
+Proof. repeat split; reflexivity. Qed.
